@@ -204,7 +204,7 @@ def item(draw, lang):
     if k == "func":
         return draw(function(lang))
     if k == "const":
-        it = {"k": "const", "lit": draw(literal(lang, "any")), "name_style": draw(st.integers(0, 4))}
+        it = {"k": "const", "lit": draw(literal(lang, "any")), "name_style": draw(st.integers(0, 4)), "typed": draw(st.sampled_from([0, 0, 1, 2]))}
         if lang in ("ts", "js"):
             it["export"] = draw(st.booleans())
         if lang == "rs":
